@@ -6,6 +6,7 @@ import (
 	"go/ast"
 	"go/parser"
 	"go/token"
+	"go/types"
 	"strings"
 	"testing/fstest"
 
@@ -396,8 +397,12 @@ func cmdC05(seed uint64, thorough bool, dir string) {
 			if exp != gotS {
 				st.mismatchG("grouping|"+binOpsOf(ts), c05Mismatch{Kind: "grouping", Expr: src, Ops: binOpsOf(ts), Expected: exp, Got: gotS})
 			}
-			if tv := goType(ge); tv.i != -99 {
+			// valid Go only: go/types with a, b, c, d int32 and p, q bool rejects what the int32 evaluation below
+			// cannot see (an untyped constant sub-expression that overflows int32, a constant division by zero, ...)
+			if tv := goType(ge); tv.i != -99 && c05ValidGo(src) {
 				wellTyped[i] = ge
+			} else if tv.i != -99 {
+				st.Histogram["not valid Go for the type checker (skipped in the value comparison)"]++
 			}
 		}
 		if strings.Contains(src, "&^") {
@@ -483,4 +488,30 @@ func cmdC05(seed uint64, thorough bool, dir string) {
 	}
 	st.Extra["value_evaluations"] = nval
 	st.write(dir + "/C05_stats.json")
+}
+
+var c05Pkg = func() *types.Package {
+	pkg := types.NewPackage("p", "p")
+	for _, n := range []string{"a", "b", "c", "d"} {
+		pkg.Scope().Insert(types.NewVar(token.NoPos, pkg, n, types.Typ[types.Int32]))
+	}
+	for _, n := range []string{"p", "q"} {
+		pkg.Scope().Insert(types.NewVar(token.NoPos, pkg, n, types.Typ[types.Bool]))
+	}
+	return pkg
+}()
+
+// c05ValidGo: does the Go type checker accept the expression, with the integer variables typed int32?  The
+// expression must also be usable where an int32 or a bool is expected (an untyped constant result must fit).
+func c05ValidGo(src string) bool {
+	fset := token.NewFileSet()
+	tv, err := types.Eval(fset, c05Pkg, token.NoPos, src)
+	if err != nil {
+		return false
+	}
+	if b, ok := tv.Type.Underlying().(*types.Basic); ok && b.Info()&types.IsUntyped != 0 && b.Info()&types.IsInteger != 0 {
+		_, err = types.Eval(fset, c05Pkg, token.NoPos, "int32("+src+")")
+		return err == nil
+	}
+	return true
 }
